@@ -394,10 +394,10 @@ Section Generic.
   Proof.
     intros Hs HJ He. inversion Hs; subst; cbn in He;
       try (destruct ph; inversion He; subst; exact HJ).
-    - destruct ph; try discriminate. inversion He; subst. cbn in HJ. subst. exists Ex. reflexivity.
-    - destruct ph; try discriminate. inversion He; subst. cbn in HJ. subst. exists Sh. reflexivity.
+    - destruct ph; try discriminate. inversion He; subst. cbn in HJ. subst. unfold phase_locks. exists Ex. reflexivity.
+    - destruct ph; try discriminate. inversion He; subst. cbn in HJ. subst. unfold phase_locks. exists Sh. reflexivity.
     - destruct ph as [|m'|]; try discriminate. destruct (leqb m m') eqn:E; try discriminate.
-      inversion He; subst. destruct HJ as [md ->]. cbn. rewrite E. reflexivity.
+      inversion He; subst. destruct HJ as [md ->]. unfold phase_locks. cbn. rewrite E. reflexivity.
     - destruct ph as [|m'|]; try discriminate. destruct (leqb (guard f) m'); inversion He; subst. exact HJ.
     - destruct ph as [|m'|]; try discriminate. destruct (leqb (guard f) m'); inversion He; subst. exact HJ.
     - destruct ph; discriminate.
